@@ -55,24 +55,69 @@ def gen_sources(tier, seed):
     return srcs
 
 
+def objb_case(feat, data):
+    return "OBJB " + " ".join(f"{x:x}" for x in [feat, len(data)] + list(data))
+
+
+def byte_sources(tier, seed):
+    """Sources given as the BYTES of their file: every sub-command reads with strict UTF-8 decoding (CliFile.v), so a
+    file that is not valid UTF-8 - wherever the offending bytes stand: comment, string literal, label, after `.end` - is
+    rejected by all of them alike, and a valid one gets the verdict of its text."""
+    rnd = random.Random(seed + 77)
+    bad_seqs = [b"\xe9", b"\xff", b"\xfe\xff", b"\xc0\xaf", b"\xc1\xbf", b"\xe0\x80\xaf", b"\xe0\x9f\xbf", b"\xed\xa0\x80", b"\xed\xbf\xbf",
+                b"\xf0\x8f\xbf\xbf", b"\xf4\x90\x80\x80", b"\xf5\x80\x80\x80", b"\xf8\x88\x80\x80\x80", b"\x80", b"\xbf", b"\xc3", b"\xe2\x82", b"\xf0\x9f\x8d",
+                b"\xc3\x28", b"\xe2\x28\xa1", b"\xe2\x82\x28", b"\xf0\x28\x8c\xbc", b"\xf0\x9f\x28\x8b", b"gr\xfcn", b"caf\xe9"]
+    good_seqs = ["\u00e9".encode(), "\u20ac".encode(), "\U0001f34b".encode(), "\ud7ff".encode(), "\ue000".encode(), "\U0010ffff".encode(), b"\xc2\x80", b"\xdf\xbf",
+                 b"\xe0\xa0\x80", b"\xef\xbf\xbf", b"\xf0\x90\x80\x80", b"\xf4\x8f\xbf\xbf", b"\xed\x9f\xbf", b"\xee\x80\x80"]
+    frames = [(b"halt ; ", b"\n"), (b"halt\nlea r0 s\ns .stringz \"", b"\"\n"), (b"halt\n.end\n", b"\n"), (b"halt ;", b""), (b"halt\n; ", b" more\nadd r0 r0 #1\n"),
+              (b"", b"\nhalt\n"), (b"halt\nx", b" add r0 r0 #1\n")]
+    out = []
+    for seqs, tag in ((bad_seqs, "invalid-utf8"), (good_seqs, "valid-multibyte")):
+        for q in seqs:
+            for a, b in frames:
+                out.append((0, a + q + b, tag))
+    out.append((1, b"halt\npush r0 ; \xe9\n", "invalid-utf8")); out.append((1, b"halt\npush r0 ; \xc3\xa9\n", "valid-multibyte"))
+    for _ in range(40 if tier == "quick" else 2000):        # random byte soup after a valid first line
+        n = rnd.randrange(1, 12)
+        out.append((0, b"halt ; " + bytes(rnd.choice([rnd.randrange(128, 256), rnd.randrange(32, 127)]) for _ in range(n)) + b"\n", "random-bytes"))
+    return out
+
+
 def correspondence(ctx, violations, known_hits):
     exe = ctx.cli()
     srcs = gen_sources(ctx.tier, ctx.seed)
+    nb_text = len(srcs)
+    srcs += byte_sources(ctx.tier, ctx.seed)
     d = clicommon.fresh_dir(ctx, "cli")
-    model = ctx.run_model([C06.obj_case(f, t) for f, t, _ in srcs], tag="obj")
+    model = ctx.run_model([C06.obj_case(f, t) if isinstance(t, str) else objb_case(f, t) for f, t, _ in srcs], tag="obj")
 
     def job(i):
         feat, text, tag = srcs[i]
         def run():
             sub = os.path.join(d, str(i)); os.makedirs(sub, exist_ok=True)
-            with open(os.path.join(sub, "p.asm"), "w", encoding="utf-8", newline="") as f:
-                f.write(text)
+            with open(os.path.join(sub, "p.asm"), "wb") as f:
+                f.write(text.encode("utf-8") if isinstance(text, str) else text)
             fl = ["-f", "stack"] if feat else []
             chk = clicommon.run_cli(exe, ["check", "p.asm"] + fl, sub)
             cmp_ = clicommon.run_cli(exe, ["compile", "p.asm", "o.lc3"] + fl, sub)
             run_ = clicommon.run_cli(exe, ["run", "p.asm", "--minimal"] + fl, sub, stdin=b"", timeout=5)
             # `run` got past assembly iff it announced the run (the program's own exit status is not the verdict)
             run_rc = 0 if clicommon.RUNNING.encode() in run_[1] else (run_[0] if run_[0] not in (0, -9) else 1)
+            if not isinstance(text, str):
+                # files given as bytes: also the bare `lace FILE` form and `lace debug` (both assemble through run()),
+                # and the object bytes `compile` wrote
+                bare = clicommon.run_cli(exe, ["p.asm", "--minimal"] + fl, sub, stdin=b"", timeout=5)
+                dbg = clicommon.run_cli(exe, ["debug", "p.asm", "--minimal", "--command", "exit"] + fl, sub, stdin=b"", timeout=5)
+                for x in (bare, dbg):
+                    rc2 = 0 if clicommon.RUNNING.encode() in x[1] else (x[0] if x[0] not in (0, -9) else 1)
+                    if (rc2 in (0, 238)) != (run_rc in (0, 238)):
+                        run_rc = 1000 + rc2            # the forms of `run` disagree among themselves
+                obj = os.path.join(sub, "o.lc3")
+                got = open(obj, "rb").read() if os.path.exists(obj) else None
+                mo = [int(x, 16) for x in model[i][0].split()]
+                want = bytes(mo[2:2 + mo[1]]) if mo[0] == 0 else None
+                if got != want:
+                    return chk[0], 2000 + cmp_[0], run_rc, chk[2][-200:]
             return chk[0], cmp_[0], run_rc, chk[2][-200:]
         return run
 
@@ -89,11 +134,11 @@ def correspondence(ctx, violations, known_hits):
         if sig not in sigs:
             sigs.add(sig)
             if len(samples) < 6:
-                samples.append({"tag": tag, "feature_stack": feat, "source": text[:200], "exits": [c, m, r], "model": me})
+                samples.append({"tag": tag, "feature_stack": feat, "source": text[:200] if isinstance(text, str) else "bytes " + text[:100].hex(), "exits": [c, m, r], "model": me})
         if not (c == m == run_ok == me):
             nv += 1
             if nv <= 8:
-                violations.append({"kind": "verdicts-disagree", "tag": tag, "feature_stack": feat, "source": text,
+                violations.append({"kind": "verdicts-disagree", "tag": tag, "feature_stack": feat, "source": text if isinstance(text, str) else "bytes " + text.hex(),
                                    "check_exit": c, "compile_exit": m, "run_exit": r, "model_exit": me, "check_stderr": err.decode(errors="replace")})
     import concurrent.futures
     with concurrent.futures.ThreadPoolExecutor(2) as pool:          # the two watchers do not share anything
@@ -106,7 +151,7 @@ def correspondence(ctx, violations, known_hits):
         "rule": "CLI exit status of `lace check`, `lace compile`, `lace run` on the same file under each feature setting, vs each other "
                 "and vs the model's verdict: sources whose only error is a too-distant label reference at EVERY statement position x "
                 "every PC-relative instruction (forwards and backwards), sources using each stack mnemonic, the C04 boundary corpus, "
-                "random valid/invalid/mutated programs; a real `lace watch` process without and one with `-f stack`, each driven through a designed sequence of file rewrites (re-checks that fail after recording labels, then sources that reuse or only reference those labels, emission-only errors, the stack extension's mnemonics as instructions and as labels), each re-check's verdict compared with the model's; "
+                "random valid/invalid/mutated programs; sources given as the BYTES of their file (model CliFile.v, case kind OBJB): 25 ill-formed UTF-8 sequences (over-long forms, surrogates, beyond U+10FFFF, truncated, stray continuation, Latin-1) and 14 boundary well-formed ones, each in a comment, a string literal, after `.end`, at end of file, in label position, plus random high bytes - check / compile (and the object bytes) / run / bare `lace FILE` / debug against each other and the model; a real `lace watch` process without and one with `-f stack`, each driven through a designed sequence of file rewrites (re-checks that fail after recording labels, then sources that reuse or only reference those labels, emission-only errors, the stack extension's mnemonics as instructions and as labels), each re-check's verdict compared with the model's; "
                 "distinct = distinct (source class, verdict)",
         "histogram": hist, "samples": samples, "mismatches": nv, "watch": watch,
     }
@@ -143,7 +188,7 @@ def drive_watch(ctx, exe, srcs, model, violations, seq=None, feat=0):
         "halt\n",
     ]
     if seq is None:
-        extra = [srcs[i][1] for i in range(len(srcs)) if srcs[i][0] == feat][:200:17][: (3 if ctx.tier == "quick" else 12)]
+        extra = [srcs[i][1] for i in range(len(srcs)) if srcs[i][0] == feat and isinstance(srcs[i][1], str)][:200:17][: (3 if ctx.tier == "quick" else 12)]
         seq = (STACK_SEQ + designed[:2] if feat else designed + STACK_SEQ[:4]) + extra
     verdicts = ctx.run_model([C06.obj_case(feat, t) for t in seq], tag="watchobj%d" % feat)
     # the watcher MODEL (Watch.v: one process, symbol table threaded from re-check to re-check, reset after each) on the
